@@ -376,10 +376,10 @@ func validatorSymmetry(x *Ctx) {
 // decodeSideCounterpart: validators of tokenFromModel whose construct-side counterpart is not "the
 // same function called by validate()" but another, separately checked, mechanism.
 var decodeSideCounterpart = map[string]string{
-	"did.Parse":                               "did.DID values can only be produced by did.Parse / did.FromPubKey / did.Undef (C16); validate() checks Defined()",
-	"token/internal/parse.OptionalDID":        "as did.Parse",
-	"pkg/policy.FromIPLD":                     "validate() encodes the policy and applies ValidateIntegerBoundsIPLD (C07.R5 policy-integers); statements can only be built by the package's constructors / decoder",
-	"token/internal/parse.OptionalTimestamp":  "validate() bounds every serialised timestamp (C07.R4)",
+	"did.Parse":                              "did.DID values can only be produced by did.Parse / did.FromPubKey / did.Undef (C16); validate() checks Defined()",
+	"token/internal/parse.OptionalDID":       "as did.Parse",
+	"pkg/policy.FromIPLD":                    "validate() encodes the policy and applies ValidateIntegerBoundsIPLD (C07.R5 policy-integers); statements can only be built by the package's constructors / decoder",
+	"token/internal/parse.OptionalTimestamp": "validate() bounds every serialised timestamp (C07.R4)",
 }
 
 // decodeOnlyValidators: every in-module call whose failure makes tokenFromModel fail is either one
